@@ -226,6 +226,25 @@ Theorem C18_registry_history : forall ops c,
 Proof. exact registry_history. Qed.
 Print Assumptions C18_registry_history.
 
+(* sessions on one adapter instance: after ANY history the outcome of adapt_func depends on the
+   history only (nothing is remembered between calls); a native function sees the internal graph
+   itself, any other one the restored domain graph *)
+Theorem C18_session_call_model : forall (G M : Type) (cvA : G -> G) (cvR : G -> option M -> G) den fl q g,
+  (is_native fl q = true ->
+     call_adapted cvA cvR ANx den (adapt_func fl q) [VGraph KOpt g] [] = den q [VGraph KOpt g] []) /\
+  (is_native fl q = false ->
+     call_adapted cvA cvR ANx den (adapt_func fl q) [VGraph KOpt g] [] =
+     bind (den q [VGraph KDom (cvR g None)] []) (transform_result (adapt cvA ANx))).
+Proof. intros G M cvA cvR. exact (session_call_model cvA cvR). Qed.
+Print Assumptions C18_session_call_model.
+
+Theorem C18_model_holds_session : forall ops adapting q,
+  holds_session ops adapting q (is_native (run_ops ops) q)
+                (if adapting then adapted_is_same (adapt_func (run_ops ops) q) else false)
+                (expect_recv_dom (run_ops ops) adapting q) = true.
+Proof. exact model_holds_session. Qed.
+Print Assumptions C18_model_holds_session.
+
 (* the model satisfies the oracle that the harness evaluates on observed behaviour *)
 Theorem C18_model_holds_registry : forall ops c,
   holds_registry ops c (is_native (run_ops ops) c) (adapted_is_same (adapt_func (run_ops ops) c)) = true.
